@@ -50,6 +50,40 @@ pub fn judge_templates(prop: &str, cases: &[Case], rep: &mut Report, describe: &
     judge_obs(prop, &keep, obs, rep, describe, "written as the body of a parameterized type, compared definition = an instance of it");
 }
 
+/// the first component / alternative of plain type INTEGER is written as a reference to a fixed-type field of an
+/// information object class (`CLS.&code`, the field being INTEGER): the definition must come out as with INTEGER written
+/// in place. (Definitions that mention a class are rebuilt by the linker, member by member.)
+pub fn with_class_field(asn: &str, i: usize) -> Option<String> {
+    for (at, _) in asn.match_indices(" INTEGER") {
+        let rest = &asn[at + 8..];
+        let rest_t = rest.strip_prefix(" OPTIONAL").unwrap_or(rest);
+        if rest_t.starts_with(',') || rest_t.starts_with(" }") {
+            return Some(format!("{} CLS{i}.&code{}", &asn[..at], rest));
+        }
+    }
+    None
+}
+
+pub fn judge_class_field(prop: &str, cases: &[Case], rep: &mut Report, describe: &dyn Fn(&Case) -> Vec<String>) {
+    let keep: Vec<Case> = cases.iter().enumerate().filter(|(i, c)| c.tag.is_none() && with_class_field(&c.ty.asn(), *i).is_some()).map(|(_, c)| c.clone()).collect();
+    let obs = compile_cases_with(&keep, rep, &|c: &Case, i: usize| {
+        format!("CLS{i} ::= CLASS {{ &code INTEGER UNIQUE, &Type OPTIONAL }}\n{} ::= {}", top_name(i), with_class_field(&c.ty.asn(), i).unwrap_or_else(|| c.ty.asn()))
+    });
+    for o in obs.iter().flatten() {
+        let _ = o;
+        rep.count("class-field-member");
+    }
+    judge_obs(prop, &keep, obs, rep, describe, "one INTEGER component written as a fixed-type class field reference");
+}
+
+fn case_json(c: &Case, i: usize, setting: &str) -> serde_json::Value {
+    let mut v = json!({"env": c.env, "implied": c.implied, "asn1": c.asn(i), "module": format!("Struct-Mod {}\n{}{}\nEND", header(c.env, c.implied), BASE_DEFS, c.asn(i)), "ty_sx": c.ty.sx(), "tag_sx": tag_sx(&c.tag)});
+    if !setting.is_empty() {
+        v["setting"] = json!(setting);
+    }
+    v
+}
+
 pub fn compile_cases_with(cases: &[Case], rep: &mut Report, asn: &dyn Fn(&Case, usize) -> String) -> Vec<Option<Vec<String>>> {
     let mut out: Vec<Option<Vec<String>>> = vec![None; cases.len()];
     let rcfg = rasn_compiler::prelude::RasnConfig::default();
@@ -93,15 +127,19 @@ pub fn compile_cases_with(cases: &[Case], rep: &mut Report, asn: &dyn Fn(&Case, 
                         out[i] = Some(items);
                     }
                 }
+                // the generators write valid notation only: a definition that makes the whole compilation fail has no
+                // item at all, i.e. none of its components / tags / markers is represented
                 Outcome::Err(e) => {
                     rep.evaluations += 1;
                     rep.count("compile-err");
-                    rep.sample(json!({"compile_err": e, "asn1": cases[idxs[sel[0]]].asn(idxs[sel[0]])}));
+                    let i = idxs[sel[0]];
+                    rep.unsat("", false, json!({"why": format!("valid notation, but the compilation fails: {e}"), "case": case_json(&cases[i], i, "")}));
                 }
                 Outcome::Panic(p) => {
                     rep.evaluations += 1;
                     rep.count("compile-panic");
-                    rep.sample(json!({"compile_panic": p, "asn1": cases[idxs[sel[0]]].asn(idxs[sel[0]])}));
+                    let i = idxs[sel[0]];
+                    rep.unsat("", false, json!({"why": format!("valid notation, but the compilation panics: {p}"), "case": case_json(&cases[i], i, "")}));
                 }
             }
         }
